@@ -815,14 +815,20 @@ fn mutate_tokens(src: &str, rng: &mut Rng) -> Option<String> {
 /// reply with everything that legitimately differs between renderings removed
 fn stripped(reply: &Value) -> String {
     if let Some(ok) = reply.get("ok") {
-        let mut v = ok.clone();
-        if let Some(o) = v.as_object_mut() {
-            for (_, inner) in o.iter_mut() {
-                if let Some(m) = inner.as_object_mut() {
-                    m.remove("@attrs");
+        // the forwarded attributes legitimately differ between renderings; they sit one level
+        // down, two under a newtype wrapper
+        fn drop_attrs(v: &mut Value, depth: usize) {
+            if let Some(o) = v.as_object_mut() {
+                o.remove("@attrs");
+                if depth > 0 {
+                    for (_, inner) in o.iter_mut() {
+                        drop_attrs(inner, depth - 1);
+                    }
                 }
             }
         }
+        let mut v = ok.clone();
+        drop_attrs(&mut v, 2);
         return format!("ok:{v}");
     }
     if let Some(e) = reply.get("err") {
@@ -874,14 +880,26 @@ fn run_corpus(args: &Args, prop: &'static str, plan: Plan) -> i32 {
                         }
                     };
                     for id in &sh.ids {
-                        let r = &recvs[*id];
+                        // a newtype wrapper of an element-level receiver delegates everything: inputs and
+                        // expectations are the inner receiver's, the call goes to the wrapper
+                        let top = &recvs[*id];
+                        let (r, wrapper) = match &top.shape {
+                            Shape::Newtype(Ty::Recv(inner)) if top.tr.element_level() => (&recvs[*inner], Some(top)),
+                            _ => (top, None),
+                        };
+                        if wrapper.is_some() {
+                            c.count("programs.newtype-wrapper");
+                        }
                         c.count("programs");
                         c.count(&format!("programs.{:?}{}", r.tr, if r.is_enum() { "-enum" } else { "" }));
                         let mut rng = Rng::for_stream(seed, 1000 + *id as u64, 0);
                         let mut rsrc: Option<String> = None;
                         for iter in 0..per_program {
                           let mut group_replies: Vec<(u64, String, String)> = vec![];
-                          for case in case_fn(recvs, r, &mut rng, prop, iter) {
+                          for mut case in case_fn(recvs, r, &mut rng, prop, iter) {
+                            if let (Some(w), Outcome::Ok(v)) = (wrapper, &case.expected) {
+                                case.expected = Outcome::Ok(values::newtype_value(w, v.clone()));
+                            }
                             c.eval();
                             let reply = match drv.call(*id, case.entry, &case.src) {
                                 drive::Reply::Value(v) => v,
